@@ -136,7 +136,10 @@ AllDecoders == {"urlenc", "cookie", "multipart", "setcookie", "pct"}
 U64MAX == "18446744073709551615"
 (* obs.maxage: "-" (no Max-Age yielded) or the decimal digits of the yielded value.  For the HUGE token (a digit string
    beyond 2^64) a yielded number other than the saturated one can only come from a wrapped fold.                        *)
-MaxAgeOK(scn, obs) == ~(scn.dec = "setcookie" /\ scn.mut = 0 /\ \E i \in 1..Len(scn.toks) : scn.toks[i] = "HUGE") \/ obs.maxage \in {"-", U64MAX}
+\* (a second Max-Age directive with an ordinary number may legitimately be the one that is yielded: only inputs whose every Max-Age is HUGE count)
+HasOrdinaryMaxAge(toks) == \E i \in 1..(Len(toks) - 1) : toks[i] \in {"Max-Age=", "max-age="} /\ toks[i + 1] # "HUGE"
+MaxAgeOK(scn, obs) == ~(scn.dec = "setcookie" /\ scn.mut = 0 /\ (\E i \in 1..Len(scn.toks) : scn.toks[i] = "HUGE") /\ ~HasOrdinaryMaxAge(scn.toks))
+                      \/ obs.maxage \in {"-", U64MAX}
 Total(scn, obs) == /\ obs.kind \in {"value", "error"}
                    /\ obs.utf8ok /\ obs.inrange
                    /\ MaxAgeOK(scn, obs)
